@@ -15,7 +15,9 @@ Obligations that can be reported (witness keys in brackets)
   rt/StudyTiling.count_populated_positions/count         [kind=geom, width, height, sub]
   rt/StudyTiling.image_to_tile/slot                      [kind=geom, width, height, sub]
   rt/StudyTiling.tile_image/read-back                    [kind=tile, width, height, sub, mode,
-      format, content, source, seed, inf (only when set); + tile=[n,x,y] of the first bad tile]
+      format, content, source, seed, inf (only when set), image_format (only when set: how the image handed
+      to tile_image was made, see image_formats_for; absent = Image.from_array labelled with the pyramid's
+      format); + tile=[n,x,y] of the first bad tile]
       deepest-level tile files (located through the WTML Url template, decoded with
       numpy/PIL/astropy directly), put in display orientation (fits rows reversed), equal
       the image inside and are undefined (alpha 0 / NaN / 0) outside; a missing file counts
@@ -30,6 +32,10 @@ Bounds
             sub-image read-backs, 6 random sizes <= 1400; float images with +-inf pixels
             (inf = 'all' | 'some' | 'channel', see rt/c15_modes.random_array): 6 sizes x 3 x 3
             contents + 8 random sizes / sub-images per (float mode, format) pair.
+            Image format independent of the pyramid format: every (mode, lossless tile format) pair x every
+            origin of the image (from_array unlabelled = png, labelled png / npy / fits, loaded from .npy,
+            from FITS for scalar modes, from PNG for colour modes) = 89 triples x 4 fixed sizes
+            {1x1, 257x300, 300x131, 513x257} + 2 random sizes / sub-images (thorough: + 24).
   thorough: geometry exhaustive for all (w, h) in 1..600 x 1..600, each axis 1..2100 against
             14 sampled values of the other, 3000 random sizes (one axis <= 100000, other <= 2000), 30 random sizes <= 30000^2, 6000 random
             sub-images; read-back for every n in 1..600 as width and as height against a
@@ -167,6 +173,47 @@ def check_geometry(width, height, sub):
 
 # ----------------------------------------------------------------------------- read-back
 
+IMAGE_FORMATS = ("default", "png", "npy", "fits", "file-npy", "file-fits", "file-png")
+
+
+def image_formats_for(mode):
+    """Ways of making an Image of ``mode`` whose default_format is set independently of the pyramid:
+    'default'  Image.from_array(arr)                      (class default, "png")
+    'png' | 'npy' | 'fits'  Image.from_array(arr, default_format=...)   (a label; any mode accepts any)
+    'file-npy'   np.save + ImageLoader().load_path        (default_format "npy")
+    'file-fits'  astropy writeto + ImageLoader().load_path (default_format "fits"; scalar modes)
+    'file-png'   PIL save + ImageLoader().load_path       (default_format "png"; 8-bit colour)"""
+    out = ["default", "png", "npy", "fits", "file-npy"]
+    if mode in M.INT_MODES or mode in ("F32", "F64"):
+        out.append("file-fits")
+    if mode in M.COLOUR_MODES:
+        out.append("file-png")
+    return out
+
+
+def make_image(arr, imf, base):
+    from toasty.image import Image, ImageLoader
+    if imf == "default":
+        return Image.from_array(arr.copy())
+    if imf in ("png", "npy", "fits"):
+        return Image.from_array(arr.copy(), default_format=imf)
+    src = tempfile.mkdtemp(prefix="src_", dir=base)
+    if imf == "file-npy":
+        path = os.path.join(src, "image.npy")
+        np.save(path, arr)
+    elif imf == "file-fits":
+        from astropy.io import fits
+        path = os.path.join(src, "image.fits")
+        fits.PrimaryHDU(arr.copy()).writeto(path)
+    elif imf == "file-png":
+        from PIL import Image as PILImage
+        path = os.path.join(src, "image.png")
+        PILImage.fromarray(arr.copy()).save(path)
+    else:
+        raise ValueError(imf)
+    return ImageLoader().load_path(path)     # the source directory goes away with the pyramid directory
+
+
 def check_tile(spec, workdir):
     """Tile one image with the real code into a fresh pyramid and read the files back.
     Returns a list of (obligation, message, extra-witness)."""
@@ -182,7 +229,16 @@ def check_tile(spec, workdir):
     base = tempfile.mkdtemp(prefix="c08_", dir=workdir)
     try:
         try:
-            if spec.get("source") == "pil" and mode in M.COLOUR_MODES:
+            imf = spec.get("image_format")
+            if imf is not None:
+                # the image's OWN default format, varied independently of the pyramid's tile format
+                image = make_image(arr, imf, base)
+                # "the image" of the statement is the Image handed to tile_image
+                arr = np.array(image.asarray())
+                arr = arr.astype(arr.dtype.newbyteorder("="))
+                if arr.shape[:2] != (H, W) or M.mode_of_array(arr) != mode:
+                    raise RuntimeError("C08 harness: image made as %r has shape %r dtype %s" % (imf, arr.shape, arr.dtype))
+            elif spec.get("source") == "pil" and mode in M.COLOUR_MODES:
                 from PIL import Image as PILImage
                 image = Image.from_pil(PILImage.fromarray(arr.copy()))
             else:
@@ -305,7 +361,7 @@ def _key(s):
     if s["kind"] == "geom":
         return ("geom", s["width"], s["height"], sub)
     return ("tile", s["width"], s["height"], sub, s["mode"], s["format"], s.get("content", "mixed"), s.get("source", "array"), s["seed"],
-            s.get("inf"))
+            s.get("inf"), s.get("image_format"))
 
 
 def rand_sub(rng, w, h):
@@ -323,15 +379,17 @@ def run(ctx):
     geom_specs = []   # compact
     tile_specs = []
 
-    def tile(w, h, sub, mode, fmt, content=None, source=None, inf=None):
+    def tile(w, h, sub, mode, fmt, content=None, source=None, inf=None, image_format=None):
         s = {"kind": "tile", "width": w, "height": h, "sub": sub, "mode": mode, "format": fmt,
              "content": content or rng.choice(["mixed", "mixed", "full", "blocks", "sparse"]),
-             "source": source or ("pil" if mode in M.COLOUR_MODES and rng.random() < 0.3 else "array"),
+             "source": source or ("pil" if mode in M.COLOUR_MODES and rng.random() < 0.3 and not image_format else "array"),
              "seed": rng.randrange(2 ** 31)}
         if mode == "RGBA" and rng.random() < 0.3:
             s["dirty"] = True
         if inf:
             s["inf"] = inf
+        if image_format:
+            s["image_format"] = image_format
         tile_specs.append(s)
 
     others = [1, 2, 255, 256, 257, 511, 512, 513, 1024, 1025, 2048, 2049]
@@ -400,6 +458,25 @@ def run(ctx):
             tile(w, h, rand_sub(rng, w, h) if rng.random() < 0.6 else None, mode, fmt,
                  content=rng.choice(["full", "mixed", "blocks", "sparse", "single"]), inf=rng.choice(M.INF_KINDS))
             n_inf += 1
+    # the image's own default format varied independently of the pyramid's tile format: the row order of a written tile is
+    # a matter of the pyramid's format alone ("for top-down and bottom-up tile formats alike"), wherever the image came from
+    imf_sizes = [(1, 1), (257, 300), (300, 131), (513, 257)]
+    n_imf = 0
+    imf_pairs = set()
+    for mode, fmt in COMBOS:
+        for imf in image_formats_for(mode):
+            sizes = list(imf_sizes)
+            for _ in range(24 if ctx.thorough else 2):
+                sizes.append((rng.choice(CORNERS + [rng.randint(1, 1100)]), rng.choice(CORNERS + [rng.randint(1, 1100)])))
+            for k, (w, h) in enumerate(sizes):
+                sub = rand_sub(rng, w, h) if k >= len(imf_sizes) and k % 2 else None
+                tile(w, h, sub, mode, fmt, content=("full" if k == 1 else None), image_format=imf)
+                n_imf += 1
+            imf_pairs.add((mode, fmt, imf))
+    ctx.bound("read-back with the image's default format chosen independently of the pyramid's: %d cases = %d (mode, tile format, image "
+              "origin) triples -- every (mode, lossless tile format) pair x {Image.from_array without format (png), from_array labelled "
+              "png / npy / fits, loaded by ImageLoader from .npy, from FITS (scalar modes), from PNG (colour modes)} -- x sizes %r + %d "
+              "random sizes / sub-images <= 1100 each" % (n_imf, len(imf_pairs), imf_sizes, 24 if ctx.thorough else 2))
     ctx.bound("read-back of floating-point images with infinities (defined values): %d cases = %r x sizes %r x {every defined pixel "
               "+-inf, a fifth of them, one channel of every pixel (F16x3)} x {no undefined pixel, random NaN mask, a single defined "
               "pixel} + random sizes <= 1100 and sub-images" % (n_inf, fcombos, inf_sizes))
